@@ -103,13 +103,13 @@ class Integrator(object):
                         else:
                             min_val = np.inf
                     else:
-                        if pa.get_number_of_particles() > 0:
+                        if pa.get_number_of_particles(real=True) > 0:
                             min_val = np.min(pa.dt_adapt)
                         else:
                             min_val = np.inf
                     dt_min = min(dt_min, min_val)
 
-            if dt_min > 0.0:
+            if dt_min > 0.0 and not np.isinf(dt_min):
                 return dt_min
             else:
                 return None
